@@ -81,6 +81,16 @@ CHECKS = {
              'newer than the view and younger than the consistency timeout; conversely raw-event and index handlers must run at the '
              'delivery instants (in the sub-domain where nothing else can delay them) and timers keep their interval. Bounded exploration.',
         design_ref='5/C07'),
+    'C08': dict(
+        technique='property-based testing: Hypothesis-generated closed-loop histories with handlers/timers that accumulate merge fields, '
+                  'results and non-idempotent marker transformations, under API latency (422 conflicts) and delete-and-recreate races; plus '
+                  'a component-level generator driving patching.patch_obj() with a deletion or a foreign write injected before each of its '
+                  '<=4 requests; oracle = reference model of the object + request-log rules + exactly-once markers',
+        text='Reference-model comparison at quiescence (every patched field/result equals the last writer; every transformation marker '
+             'occurs exactly once), request-log rules (status through /status iff the resource has the subresource; JSON patches '
+             'start with a resourceVersion test and touch only transformation targets; no request after a 404; 404 is silent), and '
+             'no write on another uid than the handled one. One listed known finding (merge-patches land on a same-named successor).',
+        design_ref='5/C08'),
     'C15': dict(
         technique='bounded-exhaustive enumeration (itertools.product over a criteria alphabet, sampled in quick, complete in thorough) '
                   'of handler declarations x object states x causes through the public decorators, differential against an executable '
